@@ -410,9 +410,9 @@ Proof.
     all: cbn [fires_for]; match goal with |- (?a =? ?b) = false => destruct (Z.eqb_spec a b); [|reflexivity] end;
          exfalso; apply n; apply U; solve [assumption | lia].
   - (* deadline *)
-    intros i. rewrite step_log, new_obs_delta.
-    destruct e; cbn [is_issue noresched resched_on] in *; try specialize (Hnew eq_refl); unfold delta; cbn zeta; unf; proj; brk; proj;
-      intros Hi Oi; cbn [app];
-      try (destruct (D i ltac:(lia) Oi) as (t0 & tau0 & D1 & D2 & D3); exists t0, tau0; cbn [In]; tauto).
+    intros i.
+    destruct e; cbn [is_issue noresched resched_on] in *; try specialize (Hnew eq_refl); unf; proj; brk; proj;
+      intros Hi Oi;
+      try (destruct (D i ltac:(lia) Oi) as (t0 & tau0 & D1 & D2 & D3); exists t0, tau0; split; [first [assumption | right; assumption] | split; assumption]).
     all: idtac "DLREM". Show.
 Abort.
